@@ -1,0 +1,37 @@
+//go:build verif
+
+// Contracts checked by /verif/gowp. This file contains comments only and is compiled only
+// with -tags verif.
+
+package dag
+
+//@ macro okver(t) = call("github.com/Masterminds/semver.NewVersion", t)[1] == nil
+//@ macro ver(t) = call("github.com/Masterminds/semver.NewVersion", t)[0]
+//@ macro okcon(s) = call("github.com/Masterminds/semver.NewConstraint", s)[1] == nil
+//@ macro constraint(s) = call("github.com/Masterminds/semver.NewConstraint", s)[0]
+//@ macro SATISFIES(i, w) = i.GetConstraints() == w.GetConstraints() || (okcon(w.GetConstraints()) && okver(i.GetConstraints()) && constraint(w.GetConstraints()).Check(ver(i.GetConstraints())))
+
+// The upgrading graph accepts the installed version of a dependency only when it is literally
+// what the parent asks for (which is how a pinned digest is met) or it is a semantic version that
+// satisfies the parent's semantic version constraint. Anything else - a malformed constraint, a
+// digest other than the installed one, an installed digest under a range - is not accepted.
+//
+//@ func dag.isValidConstraints
+//@ props C17
+//@ sweep
+//@ frame fresh-only
+//@ requires installed != nil && wanted != nil
+//@ ensures [C17:installed-version-accepted-only-if-it-equals-or-satisfies-the-constraint] result ==> SATISFIES(installed, wanted)
+//@ ensures [C17:equal-or-satisfying-installed-version-is-accepted] SATISFIES(installed, wanted) ==> result
+
+// An edge to a node the graph does not hold, or holds at a version that does not meet the
+// parent's constraint, is reported so that the resolver goes and looks for a version.
+//
+//@ func (*dag.MapUpgradingDag).AddEdge
+//@ props C17
+//@ sweep
+//@ requires d != nil && to != nil
+//@ requires forall k:string :: (k in d.nodes) ==> d.nodes[k] != nil
+//@ ensures [C17:absent-dependency-is-implied] old(!(to.Identifier() in d.nodes) && (from in d.nodes)) ==> result
+//@ ensures [C17:installed-dependency-that-does-not-meet-the-constraint-is-implied] old((from in d.nodes) && (to.Identifier() in d.nodes) && !SATISFIES(d.nodes[to.Identifier()], to)) ==> result
+//@ ensures [C17:installed-dependency-that-meets-the-constraint-is-not-implied] old((to.Identifier() in d.nodes) && SATISFIES(d.nodes[to.Identifier()], to)) ==> !result
